@@ -1177,6 +1177,292 @@ impl Gen {
         }
     }
 
+    /// one structured mutation of the header lines `lines` (without the `.nodes` line)
+    fn hdr_mutate(&mut self, lines: &mut Vec<Vec<u8>>) {
+        const NUMS: &[&str] = &[
+            "0", "1", "2", "3", "4", "5", "7", "8", "63", "4095", "4096", "4097", "4294967295", "4294967296", "9223372036854775807",
+            "9223372036854775808", "18446744073709551615", "18446744073709551616", "99999999999999999999", "", "03", "+3", "-3", "-0", "-",
+            "--1", "1-", "3a", "a", "0x1", "1.0", "１",
+        ];
+        const BAD_UTF8: &[&[u8]] = &[
+            b"\xff", b"\xfe", b"\xc3", b"\xc3\x28", b"\xe2\x82", b"\xe2\x28\xa1", b"\xc0\x80", b"\xed\xa0\x80", b"\xf4\x90\x80\x80",
+            b"\xf0\x9f\x98", b"\xf0\x9f", b"\x80", b"\xbf", b"a\xffb", b"\xe0\x9f\x80", b"\xf0\x8f\x80\x80", b"\xf5", b"\xc1\xbf",
+            b"\xe2\x82\xac", b"\xc3\xbc", b"\xf0\x9f\x98\x80", b"\xef\xbf\xbd",
+        ];
+        if lines.is_empty() {
+            return;
+        }
+        let li = self.rng.below(lines.len() as u64) as usize;
+        let split = |l: &[u8]| -> (Vec<u8>, Vec<Vec<u8>>) {
+            let mut it = l.split(|&b| b == b' ' || b == b'\t').filter(|t| !t.is_empty());
+            let key = it.next().map(|k| k.to_vec()).unwrap_or_default();
+            (key, it.map(|t| t.to_vec()).collect())
+        };
+        let joinl = |key: &[u8], toks: &[Vec<u8>], sep: &[u8]| -> Vec<u8> {
+            let mut v = key.to_vec();
+            for t in toks {
+                v.extend_from_slice(sep);
+                v.extend_from_slice(t);
+            }
+            v
+        };
+        match self.rng.below(16) {
+            0 => {
+                // replace one token of the line by an interesting number
+                let (key, mut toks) = split(&lines[li]);
+                let n = self.rng.pick(NUMS).as_bytes().to_vec();
+                if toks.is_empty() {
+                    toks.push(n);
+                } else {
+                    let i = self.rng.below(toks.len() as u64) as usize;
+                    toks[i] = n;
+                }
+                lines[li] = joinl(&key, &toks, b" ");
+            }
+            1 => {
+                // increment / decrement one numeric token
+                let (key, mut toks) = split(&lines[li]);
+                if !toks.is_empty() {
+                    let i = self.rng.below(toks.len() as u64) as usize;
+                    if let Ok(v) = String::from_utf8_lossy(&toks[i]).parse::<i64>() {
+                        let d = *self.rng.pick(&[-2i64, -1, 1, 2]);
+                        toks[i] = (v + d).to_string().into_bytes();
+                    }
+                }
+                lines[li] = joinl(&key, &toks, b" ");
+            }
+            2 => {
+                // delete a token
+                let (key, mut toks) = split(&lines[li]);
+                if !toks.is_empty() {
+                    let i = self.rng.below(toks.len() as u64) as usize;
+                    toks.remove(i);
+                }
+                lines[li] = joinl(&key, &toks, b" ");
+            }
+            3 => {
+                // duplicate a token / append a token of the line
+                let (key, mut toks) = split(&lines[li]);
+                if !toks.is_empty() {
+                    let i = self.rng.below(toks.len() as u64) as usize;
+                    let t = toks[i].clone();
+                    let j = self.rng.below(toks.len() as u64 + 1) as usize;
+                    toks.insert(j, t);
+                }
+                lines[li] = joinl(&key, &toks, b" ");
+            }
+            4 => {
+                // swap two tokens
+                let (key, mut toks) = split(&lines[li]);
+                if toks.len() >= 2 {
+                    let i = self.rng.below(toks.len() as u64) as usize;
+                    let j = self.rng.below(toks.len() as u64) as usize;
+                    toks.swap(i, j);
+                }
+                lines[li] = joinl(&key, &toks, b" ");
+            }
+            5 => {
+                // other separators: tabs, double spaces, trailing blanks
+                let (key, toks) = split(&lines[li]);
+                let sep: &[u8] = *self.rng.pick(&[&b"\t"[..], b"  ", b" \t ", b"\t\t"]);
+                let mut l = joinl(&key, &toks, sep);
+                if self.rng.chance(1, 2) {
+                    l.extend_from_slice(*self.rng.pick(&[&b" "[..], b"\t", b" \t  "]));
+                }
+                lines[li] = l;
+            }
+            6 => {
+                // line ends: CR, CR CR, blank before the key, empty line
+                match self.rng.below(5) {
+                    0 => lines[li].push(b'\r'),
+                    1 => lines[li].extend_from_slice(b"\r\r"),
+                    2 => lines[li].insert(0, *self.rng.pick(&[b' ', b'\t'])),
+                    3 => lines.insert(li, Vec::new()),
+                    _ => lines[li].extend_from_slice(b" \r"),
+                }
+            }
+            7 => {
+                lines.remove(li);
+            }
+            8 => {
+                // duplicate the line at another position (the last one counts)
+                let l = lines[li].clone();
+                let j = self.rng.below(lines.len() as u64 + 1) as usize;
+                lines.insert(j, l);
+            }
+            9 => {
+                let j = self.rng.below(lines.len() as u64) as usize;
+                lines.swap(li, j);
+            }
+            10 => {
+                // a new line: unknown key, .auxids, other .varinfo / .mode / .ver, name lists
+                let nsupp = lines
+                    .iter()
+                    .find(|l| l.starts_with(b".ids"))
+                    .map(|l| split(l).1.len())
+                    .unwrap_or(0);
+                let nvars = lines
+                    .iter()
+                    .find(|l| l.starts_with(b".nvars"))
+                    .and_then(|l| String::from_utf8_lossy(&split(l).1.concat()).parse::<usize>().ok())
+                    .unwrap_or(0);
+                let nl: Vec<u8> = match self.rng.below(9) {
+                    0 => b".foo 1".to_vec(),
+                    1 => {
+                        let n = if self.rng.chance(2, 3) { nsupp } else { self.rng.below(5) as usize };
+                        let toks: Vec<Vec<u8>> = (0..n).map(|i| (i * 7).to_string().into_bytes()).collect();
+                        joinl(b".auxids", &toks, b" ")
+                    }
+                    2 => format!(".varinfo {}", self.rng.below(6)).into_bytes(),
+                    3 => format!(".mode {}", self.rng.pick(&["A", "B", "a", "", "AB"])).into_bytes(),
+                    4 => format!(".ver {}", self.rng.pick(&["DDDMP-2.0", "DDDMP-3.0", "DDDMP-1.0", "", "DDDMP-2.0 x"])).into_bytes(),
+                    5 => {
+                        let key: &[u8] = *self.rng.pick(&[&b".varnames"[..], b".orderedvarnames", b".suppvarnames", b".rootnames"]);
+                        let n = if key == b".suppvarnames" { nsupp } else { nvars };
+                        let n = if self.rng.chance(3, 4) { n } else { self.rng.below(6) as usize };
+                        let toks: Vec<Vec<u8>> = (0..n).map(|i| format!("n{i}").into_bytes()).collect();
+                        joinl(key, &toks, b" ")
+                    }
+                    6 => b".dd \xffname\tx  ".to_vec(),
+                    7 => b".nodes".to_vec(),
+                    _ => format!("{} {}", self.rng.pick(&[".nnodes", ".nvars", ".nsuppvars", ".nroots"]), self.rng.pick(NUMS)).into_bytes(),
+                };
+                let j = self.rng.below(lines.len() as u64 + 1) as usize;
+                lines.insert(j, nl);
+            }
+            11 => {
+                // invalid / unusual UTF-8 inside one token
+                let (key, mut toks) = split(&lines[li]);
+                let b = self.rng.pick(BAD_UTF8).to_vec();
+                if toks.is_empty() {
+                    toks.push(b);
+                } else {
+                    let i = self.rng.below(toks.len() as u64) as usize;
+                    match self.rng.below(3) {
+                        0 => toks[i] = b,
+                        1 => toks[i].extend_from_slice(&b),
+                        _ => {
+                            let mut t = b;
+                            t.extend_from_slice(&toks[i]);
+                            toks[i] = t;
+                        }
+                    }
+                }
+                lines[li] = joinl(&key, &toks, b" ");
+            }
+            12 => {
+                // the same name token replaced in all name lines by (different) invalid byte
+                // sequences: equal after from_utf8_lossy or not
+                let a = self.rng.pick(BAD_UTF8).to_vec();
+                let b = if self.rng.chance(1, 2) { a.clone() } else { self.rng.pick(BAD_UTF8).to_vec() };
+                let mut first = true;
+                let mut target: Option<Vec<u8>> = None;
+                for l in lines.iter_mut() {
+                    if l.starts_with(b".varnames") || l.starts_with(b".orderedvarnames") || l.starts_with(b".suppvarnames") {
+                        let (key, mut toks) = split(l);
+                        if toks.is_empty() {
+                            continue;
+                        }
+                        if target.is_none() {
+                            target = Some(toks[self.rng.below(toks.len() as u64) as usize].clone());
+                        }
+                        for t in toks.iter_mut() {
+                            if Some(&*t) == target.as_ref() {
+                                *t = if first { a.clone() } else { b.clone() };
+                            }
+                        }
+                        first = false;
+                        *l = joinl(&key, &toks, b" ");
+                    }
+                }
+            }
+            13 => {
+                // permute .permids (another order of the support) / rotate .ids
+                for l in lines.iter_mut() {
+                    if l.starts_with(b".permids") || (l.starts_with(b".ids") && self.rng.chance(1, 4)) {
+                        let (key, mut toks) = split(l);
+                        if toks.len() >= 2 {
+                            let i = self.rng.below(toks.len() as u64) as usize;
+                            let j = self.rng.below(toks.len() as u64) as usize;
+                            if self.rng.chance(1, 4) {
+                                // the same level / variable twice
+                                toks[i] = toks[j].clone();
+                            } else {
+                                toks.swap(i, j);
+                            }
+                        }
+                        *l = joinl(&key, &toks, b" ");
+                    }
+                }
+            }
+            14 => {
+                // drop the .varnames line (the names are then rebuilt from .orderedvarnames) or
+                // also .orderedvarnames (only .suppvarnames remains)
+                lines.retain(|l| !l.starts_with(b".varnames"));
+                if self.rng.chance(1, 3) {
+                    lines.retain(|l| !l.starts_with(b".orderedvarnames"));
+                }
+            }
+            _ => {
+                // a value after the key of a line that has none / key glued to the value
+                let (key, toks) = split(&lines[li]);
+                lines[li] = if self.rng.chance(1, 2) { joinl(&key, &toks, b"") } else { joinl(&key, &[b"x".to_vec()], b" ") };
+            }
+        }
+    }
+
+    /// structured header mutations of one base file: tokens, numbers, separators, line order,
+    /// duplicate / missing / new lines, invalid UTF-8 in names
+    fn hdr_cases(&mut self, dd: &str, ascii: bool, nmut: usize) {
+        let nv = self.rng.range(3, 5) as u32;
+        let mut base_ops = Vec::new();
+        let style = *self.rng.pick(&[0u64, 1, 1, 1, 3]);
+        if let Some(v) = self.var_names(nv, style) {
+            base_ops.push(v);
+        }
+        // at least one variable outside the support
+        let mut support = self.perm(nv);
+        support.truncate(self.rng.range(1, nv as u64 - 1) as usize);
+        support.sort_unstable();
+        let nf = self.rng.range(1, 3) as usize;
+        for _ in 0..nf {
+            if dd == "mtbdd" {
+                base_ops.push(format!("F {}", self.mt_table(nv, &support)));
+            } else {
+                base_ops.push(format!("F {}", self.bool_table(nv, &support, false)));
+            }
+        }
+        let rn = self.rng.chance(2, 3);
+        let ver3 = self.rng.chance(1, 2);
+        base_ops.push(self.x_op(nf, ver3, ascii, rn, false, false));
+        let file = Self::base_file(dd, nv, &base_ops);
+        let Some(npos) = file.windows(7).position(|w| w == b".nodes\n") else {
+            return;
+        };
+        let lines: Vec<Vec<u8>> = file[..npos].split(|&b| b == b'\n').filter(|l| !l.is_empty()).map(|l| l.to_vec()).collect();
+        let body = &file[npos..];
+        let mut mops = Vec::new();
+        for _ in 0..nmut {
+            let mut ls = lines.clone();
+            let k = *self.rng.pick(&[1u64, 1, 1, 2, 2, 3]);
+            for _ in 0..k {
+                self.hdr_mutate(&mut ls);
+            }
+            let mut data = Vec::new();
+            for l in &ls {
+                data.extend_from_slice(l);
+                data.push(b'\n');
+            }
+            data.extend_from_slice(body);
+            mops.push(format!("M raw {}", hex(&data)));
+        }
+        for chunk in mops.chunks(250) {
+            let mut ops = base_ops.clone();
+            ops.extend(chunk.iter().cloned());
+            self.emit("mal", dd, nv, "", &ops);
+        }
+    }
+
     /// out-of-memory during import: ASCII BCDD dump (negated edges) into small BDD managers
     fn oom_cases(&mut self, n: usize) {
         for _ in 0..n {
@@ -1208,6 +1494,14 @@ fn gen(tier: &str, seed: u64) {
     for dd in ["bdd", "bcdd", "zbdd", "mtbdd"] {
         for _ in 0..(nbase / 2).max(1) {
             g.mal_cases(dd, true, nmut / 2);
+        }
+    }
+    // structured header mutations
+    let (hbase, hmut) = if thorough { (6, 1500) } else { (2, 500) };
+    for _ in 0..hbase {
+        g.hdr_cases("bcdd", false, hmut);
+        for dd in ["bdd", "bcdd", "zbdd", "mtbdd"] {
+            g.hdr_cases(dd, true, hmut / 2);
         }
     }
     g.oom_cases(if thorough { 40 } else { 6 });
